@@ -35,3 +35,4 @@ int comp_wopn();
 int comp_bankmap();
 int comp_pitch();
 int comp_synth();
+int comp_audio();
